@@ -295,7 +295,7 @@ func checkC04(c *Ctx) {
 				return
 			}
 			// the test of the clearing unit's result that decides the invocation
-			for _, l := range m.GuardsAt(in) {
+			for _, l := range m.AllGuards(in, false) {
 				if !m.prevClaimLit(l, true) || l.If == nil {
 					continue
 				}
